@@ -132,13 +132,13 @@ PROPS = {
             "length <=3 (thorough 4) over {0..3} (ties common) the plan from from_values_to_sort equals the stable-sorting-permutation "
             "formula rank(i) = #smaller + #equal-before, is a permutation, reindex sorts, and reindex and rewrite are consistent on an "
             "independent id vector; plans from DenseNatMap agree; structural Rewrite impls (Vec, pair, Option, VecDeque, Arc, Envelope, "
-            "DenseNatMap<Id,Id>, scalars) apply the plan pointwise in order; ActorModelState::representative() for 1-2 (thorough 3) actors with "
+            "DenseNatMap<Id,Id>, scalars) apply the plan pointwise in order; ActorModelState::representative() for 1-2 actors with "
             "symbolic actor states embedding an id, symbolic crash flags and a 2-id history equals the image under that ONE permutation "
             "of actor states (moved + embedded ids rewritten), crash flags (moved) and history (rewritten); Network::rewrite on a non-empty network of each "
             "kind (one envelope held 1-3 times / one envelope + last message / one two-message flow; endpoints and payload ids symbolic): every copy and the "
             "queue order are kept, endpoints and embedded ids are rewritten by the same plan."
         ),
-        "bounds": {"vector_len": "1..=3 (thorough 4)", "values": "0..=3 (u8)", "actors": "1..=2 (thorough 3)", "history": "2 ids", "unwind": "4-8"},
+        "bounds": {"vector_len": "1..=3 (thorough 4)", "values": "0..=3 (u8)", "actors": "1..=2 (3 actors: CBMC out of memory, measured)", "history": "2 ids", "unwind": "4-8"},
         "outside": ["verdict preservation / state-count inequalities of DFS with symmetry (checker loops, see C01)", "networks with several envelopes/flows, rewriting of non-empty timers and random choices inside ActorModelState", "longer vectors"],
         "assumptions": COMMON_ASSUME + HASHSET_ASSUME + MODELS_ASSUME + ["ids embedded in states/history refer to existing actors (< n), as the plan's lookup requires"],
     },
